@@ -53,11 +53,30 @@ Record flags := { f_fall : bool;       (* d8b1d2a4 *)
                   f_unsigned : bool;   (* fafdf54c *)
                   f_mdq : bool;        (* 254349bd *)
                   f_inline : bool;     (* a8da97db *)
-                  f_group : bool }.    (* ab8ae013 *)
+                  f_group : bool;      (* ab8ae013 *)
+                  (* NOT a code version but the process ENVIRONMENT: the daylight-saving gaps of the process time
+                     zone, as (start, length, shift) over "UTC broken-down time read as local wall-clock time":
+                     an instant t with start <= t < start + length does not exist as local time, and libc's
+                     localtime(mktime(t, isdst=-1)) answers t + shift.  [] = a zone without such gaps in the
+                     period (UTC, any fixed offset).  Data of the case, measured through libc by the harness. *)
+                  f_gaps : list (Z * Z * Z) }.
 Definition cur : flags :=
-  {| f_fall := false; f_last := false; f_unsigned := false; f_mdq := false; f_inline := false; f_group := false |}.
+  {| f_fall := false; f_last := false; f_unsigned := false; f_mdq := false; f_inline := false; f_group := false;
+     f_gaps := [] |}.
 Definition v0 : flags :=
-  {| f_fall := true; f_last := true; f_unsigned := true; f_mdq := true; f_inline := true; f_group := true |}.
+  {| f_fall := true; f_last := true; f_unsigned := true; f_mdq := true; f_inline := true; f_group := true;
+     f_gaps := [] |}.
+(* the code as it is now, in a process whose time zone has the given daylight-saving gaps *)
+Definition in_zone (g : list (Z * Z * Z)) : flags :=
+  {| f_fall := false; f_last := false; f_unsigned := false; f_mdq := false; f_inline := false; f_group := false;
+     f_gaps := g |}.
+(* time_util.add_duration ends with time.localtime(time.mktime((y, m, d, H, M, S, 0, 0, -1))): the broken-down UTC
+   time it has computed goes through the LOCAL calendar and back, which is the identity except inside a gap *)
+Fixpoint zone_fix (gaps : list (Z * Z * Z)) (t : Z) : Z :=
+  match gaps with
+  | [] => t
+  | (a, len, sh) :: r => if ((a <=? t) && (t <? a + len))%Z then (t + sh)%Z else zone_fix r t
+  end.
 
 (* ---------------------------------------------------------------- abstract documents *)
 Record svc := Svc { s_name : string; s_binding : string; s_loc : string; s_index : option string }.
@@ -182,9 +201,13 @@ Definition parse (cv : bool) (now : Z) (m : emap) (p : payload) : option emap :=
 
 (* ---------------------------------------------------------------- signature gate *)
 Inductive skind := KInline | KFile | KRemote | KMdq.
-Record srcspec := { sp_kind : skind; sp_key : string; sp_cert : bool; sp_cv : bool;
+(* sp_cv: the source's own check_validity setting AS SPELLED in its specification (None = the key is not
+   given: the ordinary way to configure a source); sp_scv: MetadataStore.check_validity of the store the
+   source is loaded into (the constructor's argument, default True); sp_imp: the specification went
+   through MetadataStore.imp() (always so for list-style items and for reload()), not straight to load() *)
+Record srcspec := { sp_kind : skind; sp_key : string; sp_cert : bool; sp_cv : option bool;
                     sp_node : option bool;       (* node_name: Some true = EntitiesDescriptor *)
-                    sp_period : Z }.
+                    sp_period : Z; sp_scv : bool; sp_imp : bool }.
 
 Definition is_signed (sg : sigstate) : bool := match sg with Unsigned => false | _ => true end.
 Definition is_group (p : payload) : bool := match p with D (Group _ _) => true | _ => false end.
@@ -219,8 +242,17 @@ Definition eff_cert (fl : flags) (ns : bool) (sp : srcspec) : bool :=
   | KFile => ns && sp_cert sp
   | _ => sp_cert sp
   end.
+(* check_validity as it reaches the source object: only load("remote", **kw) forwards the key, and only
+   when it is given (otherwise the class default True applies); imp() writes check_validity=False into every
+   dict-valued item of an old-style specification when the STORE's check_validity is off (overriding what
+   the item says); no other route passes the setting on (list-style items, inline, local: always True) *)
 Definition eff_cv (ns : bool) (sp : srcspec) : bool :=
-  match sp_kind sp with KRemote => ns || sp_cv sp | _ => true end.
+  match sp_kind sp with
+  | KRemote => if ns then true
+               else if sp_imp sp && negb (sp_scv sp) then false
+               else match sp_cv sp with Some b => b | None => true end
+  | _ => true
+  end.
 Definition eff_node (ns : bool) (sp : srcspec) : option bool :=
   match sp_kind sp with KRemote => if ns then None else sp_node sp | KMdq => Some false | _ => None end.
 
@@ -255,7 +287,7 @@ Definition mdx_fetch_v0 (fl : flags) (x : mdx) (now : Z) (srv : server) (e : str
       | Some m =>
           let x1 := {| x_ents := m; x_exp := x_exp x; x_cert := x_cert x; x_period := x_period x |} in
           if sig_gate fl (x_cert x) KMdq (Some false) p sg then
-            let x2 := {| x_ents := m; x_exp := upsert e (now + x_period x)%Z (x_exp x);
+            let x2 := {| x_ents := m; x_exp := upsert e (zone_fix (f_gaps fl) (now + x_period x)) (x_exp x);
                          x_cert := x_cert x; x_period := x_period x |} in
             match lookup e m with
             | Some en => (x2, ROk en)
@@ -278,7 +310,7 @@ Definition mdx_fetch (fl : flags) (x : mdx) (now : Z) (srv : server) (e : string
                     else RKeyErr)
       | Some m =>
           if sig_gate fl (x_cert x) KMdq (Some false) p sg then
-            let ex := upsert e (now + x_period x)%Z (x_exp x) in
+            let ex := upsert e (zone_fix (f_gaps fl) (now + x_period x)) (x_exp x) in
             match lookup e m with
             | Some en => ({| x_ents := upsert e en (x_ents x); x_exp := ex; x_cert := x_cert x; x_period := x_period x |}, ROk en)
             | None => ({| x_ents := x_ents x; x_exp := ex; x_cert := x_cert x; x_period := x_period x |}, RKeyErr)
